@@ -239,7 +239,9 @@ def execute(plan):
         log.count('max_live_queries_%d' % min(sim.max_live, 6))
     except Discard as d:
         return log.result(discard=str(d))
-    except TM.TooDeep:
+    except (TM.TooDeep, RecursionError):
+        # a cyclic term built by `=` without occurs check (unspecified behaviour): observing it
+        # through get_value cannot terminate
         return log.result(discard='cyclic-term')
     finally:
         for t in reversed(held):
